@@ -83,12 +83,62 @@ def rule_split(ctx, F, rule="R1", ST=ST, SK=SK, KF="mina_core::timeline::Keyfram
             return None
         return eng.read_loc(p, ("L", 0, x[1][2][1]), (("field", x[2]),))
 
-    # the loop-carried 'has data' flag: the bool component the epilogue branches on
+    INTS = ("usize", "u8", "u16", "u32", "u64", "u128", "isize", "i8", "i16", "i32", "i64", "i128")
+
+    def has_data_decision(t, v):
+        """(indicator, 1 if the row established 'the property has data' else 0) when the condition (t, v) is a test of a
+        loop-carried 'has data' indicator: a bool flag, or a counter compared with 0; None otherwise"""
+        if carried_ty(t) == "bool" and v in (0, 1):
+            return (t, v)
+        if t[0] == "bin" and t[1] in ("Eq", "Ne") and carried_ty(t[2]) in INTS and t[3][0] == "const" and t[3][2] == 0 \
+                and v in (0, 1):
+            is_zero = (v == 1) == (t[1] == "Eq")
+            return (t[2], 0 if is_zero else 1)
+        if t[0] == "bin" and t[1] == "Lt" and t[2][0] == "const" and t[2][2] == 0 and carried_ty(t[3]) in INTS and v in (0, 1):
+            return (t[3], v)        # 0 < counter
+        return None
+
+    # the loop-carried 'has data' indicator: the component the epilogue branches on
     has_data = set()
     for p in paths:
         for (t, v, s) in p.conds:
-            if carried_ty(t) == "bool":
-                has_data.add(t)
+            d = has_data_decision(t, v)
+            if d is not None:
+                has_data.add(d[0])
+
+    def initial_of(x):
+        """value of the carried component before the loop"""
+        if x[0] == "loop":
+            return x[3]
+        base = x[1][3]
+        if base[0] == "agg":
+            return dict(base[4]).get(x[2])
+        return None
+
+    for hd in sorted(has_data, key=repr):
+        init = initial_of(hd)
+        ok0 = init in (pse.mk_bool(False),) or (init is not None and init[0] == "const" and init[2] == 0
+                                                and not isinstance(init[2], bool))
+        ctx.ob(rule, "has-data-indicator/initially-unset", ok0,
+               "before the first keyframe the sub-timeline has no data: the indicator must start as false / 0; it starts as %s"
+               % (show(init) if init else "?"), body["span"], what="has-data-preset")
+
+    def emptiness(p):
+        """1: this row established that no frame exists yet, 0: that one exists, None: never asked"""
+        for (t, v, s) in p.conds:
+            if t[0] == "bin" and t[1] == "Eq" and t[2][0] == "len" and t[3] == ("const", "usize", 0) and v in (0, 1):
+                return v
+            # first() / last() of the frames collected so far: None <=> empty
+            d, dv = None, None
+            if t[0] == "discr" and v in (0, 1):
+                d, dv = t, v
+            elif t[0] == "bin" and t[1] in ("Eq", "Ne") and t[2][0] == "discr" and t[3][0] == "const" and v in (0, 1) \
+                    and t[3][2] in (0, 1):
+                d = t[2]
+                dv = t[3][2] if (v == 1) == (t[1] == "Eq") else 1 - t[3][2]
+            if d is not None and d[1][0] == "call" and d[1][1].rsplit("::", 1)[-1] in ("first", "last"):
+                return 1 - dv
+        return None
     kf_time = {f["ty"]: f["name"] for f in F.adt(KF)["variants"][0]["fields"]}
     n_body = n_epi = 0
     for p in paths:
@@ -135,7 +185,9 @@ def rule_split(ctx, F, rule="R1", ST=ST, SK=SK, KF="mina_core::timeline::Keyfram
             for hd in has_data:
                 v = final_of(p, hd)
                 raised = v is not None and v != hd
-                ctx.ob(rule, lab + "/has-data-only-with-data", (not raised) or (gdec == 1 and v == pse.mk_bool(True)),
+                set_ok = v == pse.mk_bool(True) or (v is not None and v[0] == "bin" and v[1] == "Add" and v[2] == hd and
+                                                    v[3][0] == "const" and isinstance(v[3][2], int) and v[3][2] >= 1)
+                ctx.ob(rule, lab + "/has-data-only-with-data", (not raised) or (gdec == 1 and set_ok),
                        "the sub-timeline may be marked as having data only by a keyframe that defines the property "
                        "(flag becomes %s on a row with getter outcome %s)" % (show(v) if v else "-", gdec),
                        body["span"], trace_of(p), what="has-data-without-data")
@@ -180,17 +232,11 @@ def rule_split(ctx, F, rule="R1", ST=ST, SK=SK, KF="mina_core::timeline::Keyfram
                                "the easing of a keyframe that omits the property must not be carried over; carried "
                                "easing becomes %s" % show(v), body["span"], trace_of(p), what="easing-leaks")
             # (c) synthetic 0 % frame only under frames empty and position > 0
-            empty = pos_gt0 = None
+            empty = emptiness(p)
+            pos_gt0 = None
             for (t, v, s) in p.conds:
-                if t[0] == "bin" and t[1] == "Eq" and t[2][0] == "len" and t[3] == ("const", "usize", 0):
-                    empty = v
                 if t[0] == "bin" and t[1] == "Lt" and intervals.fval(t[2]) == 0.0 and t[3] == ("field", kf, kf_time["f32"]):
                     pos_gt0 = v
-            if empty is None:
-                # emptiness may also be established through first() / last() of the frames collected so far
-                for (t, v, s) in p.conds:
-                    if t[0] == "discr" and t[1][0] == "call" and t[1][1].rsplit("::", 1)[-1] in ("first", "last") and v in (0, 1):
-                        empty = 1 - v
             # fail closed: there must always be a frame at 0 %, so every iteration has to find out whether a frame exists
             # already and, if none does, whether this keyframe lies after 0 %
             ctx.ob(rule, lab + "/start-frame-decided", empty in (0, 1) and (empty == 0 or pos_gt0 in (0, 1)),
@@ -222,7 +268,12 @@ def rule_split(ctx, F, rule="R1", ST=ST, SK=SK, KF="mina_core::timeline::Keyfram
             lab = "epilogue[%s]" % ",".join(str(v) for (_, v, _) in p.conds[1:])
             r = p.ret
             f = dict(r[4]) if r[0] == "agg" else {}
-            hasdata = [v for (t, v, s) in p.conds if carried_ty(t) == "bool"]
+            hasdata = [d[1] for d in (has_data_decision(t, v) for (t, v, s) in p.conds) if d is not None]
+            # fail closed: whether the property has any data at all must be decided before anything is returned
+            ctx.ob(rule, lab + "/has-data-decided", hasdata in ([0], [1]),
+                   "the epilogue must decide whether any keyframe defined the property (an un-animated property gets an "
+                   "empty sub-timeline, so that it is never written): decisions %s" % hasdata, body["span"], trace_of(p),
+                   what="has-data-not-decided")
             if hasdata == [0]:
                 ok = _is_empty_vec(f.get(fl["frames"])) and _is_empty_vec(f.get(fl["imap"])) and \
                     f.get(fl["ov"], ("x",))[0] == "agg" and f[fl["ov"]][3] == "None"
